@@ -87,6 +87,7 @@ func runSexp(p *loaderlab.Plan, fs faultSet, res *loaderlab.Result) string {
 type planOpts struct {
 	depth                            int
 	requires, nullableReq, errEnts bool
+	chains, depSingles             bool
 }
 
 func optsFor(r *common.Rand, mode string) planOpts {
@@ -97,6 +98,11 @@ func optsFor(r *common.Rand, mode string) planOpts {
 	switch mode {
 	case "strict": // no probes of the requires/nullable corner
 		o.nullableReq = false
+	case "chain": // @requires chains / DAGs (a dependant of a SKIPPED fetch that does not depend on the failed one), dependent Single fetches
+		o.requires = true
+		o.chains = true
+		o.nullableReq = r.Chance(5, 6)
+		o.depSingles = r.Chance(1, 2)
 	}
 	return o
 }
@@ -104,7 +110,8 @@ func optsFor(r *common.Rand, mode string) planOpts {
 func makePlan(seed uint64, idx int, mode string) (*loaderlab.Plan, *common.Rand, planOpts) {
 	r := common.NewRand(seed*1000003 + uint64(idx)*7919 + 17)
 	o := optsFor(r, mode)
-	g := &loaderlab.Gen{R: r, Opt: loaderlab.GenOptions{MaxDepth: o.depth, Requires: o.requires, NullableReq: o.nullableReq, ErrEntities: o.errEnts}}
+	g := &loaderlab.Gen{R: r, Opt: loaderlab.GenOptions{MaxDepth: o.depth, Requires: o.requires, NullableReq: o.nullableReq, ErrEntities: o.errEnts,
+		ReqChains: o.chains, DepSingles: o.depSingles}}
 	u := g.Universe()
 	return g.Plan(u), r, o
 }
@@ -186,7 +193,7 @@ func planLine(lab *loaderlab.Lab, p *loaderlab.Plan, r *common.Rand, sets []faul
 			or = append(or, common.L("ans", common.I(a.FetchID), common.QS(a.Rep), jsonSexpOfText(a.Entity), common.I(a.NErrs)))
 		}
 	}
-	meta := common.L("meta", common.I64(int64(seed)), common.I(idx), common.I(o.depth), common.B(o.requires), common.B(o.nullableReq), common.B(o.errEnts))
+	meta := common.L("meta", common.I64(int64(seed)), common.I(idx), common.I(o.depth), common.B(o.requires), common.B(o.nullableReq), common.B(o.errEnts), curMode)
 	return common.L("c07", meta, p.Sexp(), common.L("prov", p.ProvSexp(p.Root)), common.L("ref", jsonSexpOfText(p.RefData())),
 		common.L(or...), common.L(runs...)), len(runs) - 1
 }
@@ -326,7 +333,7 @@ func probeNullThenObject(lab *loaderlab.Lab, firstNull bool) {
 
 func main() {
 	if len(os.Args) < 2 {
-		fmt.Fprintln(os.Stderr, "usage: c07 gen -seed S -n N -tier quick|thorough -mode mixed|strict -out F | c07 corpus -in F -out F | c07 show -seed S -idx I [-faults 1:transport,..]")
+		fmt.Fprintln(os.Stderr, "usage: c07 gen -seed S -n N -tier quick|thorough -mode mixed|strict|chain -out F | c07 corpus -in F -out F | c07 show -seed S -idx I [-faults 1:transport,..]")
 		os.Exit(2)
 	}
 	a := common.Args(os.Args[2:])
@@ -350,7 +357,7 @@ func main() {
 		total := 0
 		for idx := 0; idx < n; idx++ {
 			p, r, o := makePlan(seed, idx, mode)
-			skipNullEntities = o.nullableReq
+			skipNullEntities = o.nullableReq || o.depSingles // a null entity is no failure: a dependent Single fetch legitimately runs
 			crumb(seed, idx, mode, faultSet{})
 			req := requestedFetches(p, lab)
 			line, k := planLine(lab, p, r, faultSets(p, r, req, tier), seed, idx, o)
